@@ -221,6 +221,7 @@ def expanded_area(index, rep, fn, rule):
     env = {"self": Obj(None, {"NMONTHS": Rat.atom("N"), "KCALS_GROWN": Path(("grown",))}, "self"), fn.args.args[1].arg: Path(("c",))}
     arrays = {}
     stores = []
+    zipped = []
     elem_names = {}
     same_as = {}
     INF = float("inf")
@@ -276,6 +277,19 @@ def expanded_area(index, rep, fn, rule):
                             continue
                     raise Unsupported("statement in a loop of the expanded-area routine", s2)
                 continue
+            if isinstance(st, ast.Assign) and norm_src(st.targets[0]) == "self.KCALS_GROWN":
+                # the series re-bound to [x * r for x, r in zip(<series>, <multiplier>)] (possibly wrapped in np.array / list)
+                v_ = st.value
+                while isinstance(v_, ast.Call) and dotted(v_.func) in ("np.array", "list", "np.asarray") and len(v_.args) == 1:
+                    v_ = v_.args[0]
+                if isinstance(v_, (ast.ListComp, ast.GeneratorExp)) and len(v_.generators) == 1 and not v_.generators[0].ifs:
+                    g0 = v_.generators[0]
+                    if isinstance(g0.iter, ast.Call) and dotted(g0.iter.func) == "zip" and len(g0.iter.args) == 2 and isinstance(g0.target, ast.Tuple) \
+                            and len(g0.target.elts) == 2 and all(isinstance(x_, ast.Name) for x_ in g0.target.elts) \
+                            and isinstance(v_.elt, ast.BinOp) and isinstance(v_.elt.op, ast.Mult) \
+                            and {norm_src(v_.elt.left), norm_src(v_.elt.right)} == {x_.id for x_ in g0.target.elts}:
+                        zipped.append(([norm_src(a_) for a_ in g0.iter.args], st))
+                        continue
             raise Unsupported("statement in the expanded-area routine", st)
     except Unsupported as e:
         raise AnalysisError(f"assign_increase_from_increased_cultivated_area outside the analysed fragment: {e}")
@@ -296,6 +310,15 @@ def expanded_area(index, rep, fn, rule):
                   f"a multiplier below 1 can be stored ({val}): expanding cropland would lower output", loc=loc(OC, st))
     app = [s for s in stores if s[0] == "KCALS_GROWN"]
     ok = len(app) == 1
+    if not app and len(zipped) == 1:
+        names_m = {m} | {a_ for a_, b_ in same_as.items() if b_ == m}
+        srcs = zipped[0][0]
+        ok = "self.KCALS_GROWN" in srcs and any(x in srcs for x in names_m)
+        rep.check(ok, rule, "expanded area: grown[i] multiplied by multiplier[i]",
+                  f"the grown series is not multiplied month by month by the multiplier: the new series is built from {srcs}", loc=loc(OC, zipped[0][1]))
+        if n < 2:
+            raise AnalysisError("expanded area: fewer than two multiplier stores analysed")
+        return
     if ok:
         idx, val, env2 = app[0][1]
         ok = isinstance(val, (Rat, Path)) and any(isinstance(a, K) and a.path[:1] == ("grown",) for a in it.to_rat(val).atoms())
